@@ -9,13 +9,13 @@ Tables == Data.tables
 Cases == Data.cases
 Lives == [i \in 1..Len(Graphs) |-> LiveFn(Graphs[i])]
 Tbls == [i \in 1..Len(Tables) |-> [v \in 0..(Len(Tables[i]) - 1) |-> Tables[i][v + 1]]]
-VARIABLES cid, ph, e, d, verdict
-vars == <<cid, ph, e, d, verdict>>
+VARIABLES cid, ph, e, d, verdict, vs          \* vs: the vertices the encoder machine stood on, one per loop iteration
+vars == <<cid, ph, e, d, verdict, vs>>
 C == Cases[cid]
 LiveC == Lives[C.g]
 NC == Len(Graphs[C.g])
 TblC == IF C.tbl = 0 THEN [v \in 0..(NC - 1) |-> Ident] ELSE Tbls[C.tbl]
-Init == /\ cid \in 1..Len(Cases) /\ ph = "pre" /\ verdict = <<>>
+Init == /\ cid \in 1..Len(Cases) /\ ph = "pre" /\ verdict = <<>> /\ vs = <<>>
         /\ e = EncInit(0, <<>>) /\ d = DecInit(0)
 Emit(v) == PrintT(ToJson([cid |-> cid, verdict |-> v]))
 \* ---------------- kind "enc": encode, check, decode as recorded from the code
@@ -23,8 +23,10 @@ PreEnc == /\ ph = "pre" /\ C.kind = "enc"
           /\ IF WellFormedFast(LiveC, NC, C.start) /\ (C.mode = "fast" => NoDeg3From(LiveC, NC, C.start))
              THEN ph' = "enc" /\ e' = EncInit(C.start, C.msg) /\ UNCHANGED <<verdict>>
              ELSE ph' = "end" /\ verdict' = <<"precondition-false">> /\ Emit(verdict') /\ UNCHANGED e
-          /\ UNCHANGED <<cid, d>>
-EncRun == /\ ph = "enc" /\ e.out = "run" /\ e' = EncStep(LiveC, NC, TblC, C.msg, C.mode, e) /\ UNCHANGED <<cid, ph, d, verdict>>
+          /\ UNCHANGED <<cid, d, vs>>
+EncRun == /\ ph = "enc" /\ e.out = "run" /\ e' = EncStep(LiveC, NC, TblC, C.msg, C.mode, e)
+          /\ vs' = (IF e'.ticks > e.ticks THEN Append(vs, e.v) ELSE vs)            \* a loop iteration happened at vertex e.v
+          /\ UNCHANGED <<cid, ph, d, verdict>>
 Bound == Len(C.msg) * Cardinality(Closure(LiveC, NC, {C.start}))
 EncJudge == /\ ph = "enc" /\ e.out # "run"
             /\ LET chk == IF C.vtlen > 0 THEN VT(e.strand, C.vtlen) ELSE <<>>
@@ -35,11 +37,13 @@ EncJudge == /\ ph = "enc" /\ e.out # "run"
                         \o (IF C.enc_out = "ok" /\ C.vt # chk THEN <<"check">> ELSE <<>>)
                         \o (IF C.enc_out = "ok" /\ C.dec_out # "none" /\ (C.dec_out # "ok" \/ C.decoded # C.msg) THEN <<"round-trip">> ELSE <<>>)
                         \o (IF C.enc_out = "ok" /\ C.strand # <<>> /\ ~IsWalk(LiveC, NC, C.start, C.strand) THEN <<"not-a-walk">> ELSE <<>>)
+                        \* step conformance: the vertex reported by the tick hook at every loop iteration (when hooks are present)
+                        \o (IF C.enc_out = "ok" /\ C.tv # <<>> /\ C.tv # vs THEN <<"conformance:tick-vertices">> ELSE <<>>)
                IN verdict' = v /\ Emit(v)
-            /\ ph' = "end" /\ UNCHANGED <<cid, e, d>>
+            /\ ph' = "end" /\ UNCHANGED <<cid, e, d, vs>>
 \* ---------------- kind "dec": decode of an arbitrary string as recorded from the code
-PreDec == /\ ph = "pre" /\ C.kind = "dec" /\ ph' = "dec" /\ d' = DecInit(C.start) /\ UNCHANGED <<cid, e, verdict>>
-DecRun == /\ ph = "dec" /\ d.ph # "done" /\ d' = DecStep(LiveC, NC, TblC, C.dna, C.chk, C.mode, C.w, d) /\ UNCHANGED <<cid, ph, e, verdict>>
+PreDec == /\ ph = "pre" /\ C.kind = "dec" /\ ph' = "dec" /\ d' = DecInit(C.start) /\ UNCHANGED <<cid, e, verdict, vs>>
+DecRun == /\ ph = "dec" /\ d.ph # "done" /\ d' = DecStep(LiveC, NC, TblC, C.dna, C.chk, C.mode, C.w, d) /\ UNCHANGED <<cid, ph, e, verdict, vs>>
 DecJudge == /\ ph = "dec" /\ d.ph = "done"
             /\ LET walk == IsWalk(LiveC, NC, C.start, C.dna)
                    accept == walk /\ CheckOK(C.dna, C.chk)
@@ -52,7 +56,7 @@ DecJudge == /\ ph = "dec" /\ d.ph = "done"
                           \o (IF ~accept /\ C.out = "ok" THEN <<"accepts-non-walk">> ELSE <<>>)
                           \o (IF ~accept /\ C.out \notin {"ok", "ValueError"} THEN <<"wrong-exception-type">> ELSE <<>>)
                IN verdict' = v /\ Emit(v)
-            /\ ph' = "end" /\ UNCHANGED <<cid, e, d>>
+            /\ ph' = "end" /\ UNCHANGED <<cid, e, d, vs>>
 Next == PreEnc \/ EncRun \/ EncJudge \/ PreDec \/ DecRun \/ DecJudge
 Spec == Init /\ [][Next]_vars
 =============================================================================
